@@ -46,6 +46,7 @@ def run(ctx):
     retag(ctx, c06.rule_limits, 'C05.L1', repo, it)
     retag(ctx, c06.rule_dispatch, 'C05.D1', repo, it)
     retag(ctx, c06.rule_arity, 'C05.A1', repo, it)
+    retag(ctx, c06.rule_top_indexing, 'C05.I1', repo)
     ctx.extra.pop('_helpers', None)
     retag(ctx, c06.rule_bool_pushes, 'C05.B1', repo, it)
     retag(ctx, c06.rule_cast_to_bool, 'C05.B2', repo)
